@@ -66,7 +66,7 @@ func (e *ShadowEntry) match(h http.Header) string {
 		a, b := e.ReqHeader.Values(f), h.Values(f)
 		switch {
 		case model.DocumentedSame(f, a, b):
-		case model.SurelyDifferent(a, b):
+		case model.SurelyDifferentIn(f, a, b):
 			return "no"
 		default:
 			res = "maybe"
